@@ -652,11 +652,22 @@ class SVGPath(SVGShape, SVGCommandSeq):
     def arcs_to_cubics(self, inplace=False):
         """Replace all arcs with similar cubics"""
 
+        after_arc = [False]
+
         def arc_to_cubic_callback(subpath_start, curr_pos, cmd, args, *_):
             del subpath_start
             if cmd not in {"a", "A"}:
+                was_after_arc, after_arc[0] = after_arc[0], False
+                if was_after_arc and cmd.upper() in ("S", "T"):
+                    # shorthand after an arc has its first control point on the current
+                    # point; make it explicit or it would reflect the cubic replacing the arc
+                    if cmd.islower():
+                        cmd, args = _relative_to_absolute(curr_pos, cmd, args)
+                    long_cmd = {"S": "C", "T": "Q"}[cmd]
+                    return ((long_cmd, (curr_pos.x, curr_pos.y) + tuple(args)),)
                 # no work to do
                 return ((cmd, args),)
+            after_arc[0] = True
 
             (rx, ry, x_rotation, large, sweep, end_x, end_y) = args
 
